@@ -110,11 +110,18 @@ class TypeLoadError(LoadError):
 
 
 @custom_exception
-@dataclass(eq=False)
+@dataclass(eq=False, init=False)
 class ExcludedTypeLoadError(TypeLoadError):
     expected_type: TypeHint
     excluded_type: TypeHint
     input_value: Any
+
+    # the dataclass field order is (expected_type, input_value, excluded_type) because of the inheritance,
+    # so generated `__init__` would assign positional arguments to the wrong fields
+    def __init__(self, expected_type: TypeHint, excluded_type: TypeHint, input_value: Any):
+        self.expected_type = expected_type
+        self.excluded_type = excluded_type
+        self.input_value = input_value
 
 
 @custom_exception(str_by_fields=False)
